@@ -21,6 +21,10 @@ ALL_CLAIMED = ["C03","C04","C07","C10","C12","C16","C17","C18","C20"]
 TRUST = "Trusted: the simulator stubs (fidelity rules in DESIGN.md §2.3), the seam rewriter (its report of unseamed sites is in the evidence), the harness's own reference codec/models. Sampling, not proof."
 
 CLAIMED = {
+ "C18": dict(engine="wire-world", cat="exploration",
+   text="Caller goroutines as simulated tasks under a seeded single-baton scheduler (random walk, PCT-style priorities, run-to-completion; statement-level preemption in the small concurrent packages), with sync.Pool/Mutex/WaitGroup behind simulated primitives: (codec) concurrent codec operations incl. generated-code paths compared with the same operation run alone, with pool-discipline detectors (double Put, write after Put) and seeded pool reuse; (frame) concurrent Sends on one framed client against a server task over simulated pipes, own-payload check and linearizability of the recorded history (porcupine) against a counter model, also with the server exiting mid-run; (fanout) MultiServiceGenerator / MultiHandle / concurrent.Range with yielding, colliding and failing members. Thorough adds a race tier: the same runs in a -race build where the baton hand-off is invisible to the race detector, so a data race is reported deterministically for its seed.",
+   ref="DESIGN.md §4 C18", note=TRUST+" Without the race tier, a missing lock around seam-free code shows only through its effects at statement granularity; 'no data race' proper is decided by the race tier (thorough). porcupine timeouts are inconclusive, never reported.",
+   tech="deterministic simulation of goroutine interleavings (seeded scheduler over simulated sync primitives, pools and pipes), linearizability checking, deterministic race detection"),
  "C20": dict(engine="order-world", cat="exploration",
    text="Seeded (base program, edit script) pairs committed as HEAD~ and HEAD of a scratch git repository; cmd/thriftbreak's run() executed in readable and JSON mode under seeded map-iteration orders of the comparison and the compiler; oracles: the reported set equals an executable reference model of the five documented breaking rules (fields matched by id, declared type names compared as written), each diagnostic attributed to the changed file, error exactly when something is reported, nothing for identical or compatible versions, same set across schedules and output modes.",
    ref="DESIGN.md §4 C20", note=TRUST+" The reference model progen.Breaking is trusted; renames are not generated; HEAD always compiles; a reported line is matched by file and leading quoted names, not wording.",
